@@ -127,3 +127,69 @@ def value_defs(fa, local, depth=0, seen=None):
                 continue
         out.append((b, kind, payload))
     return out
+
+
+def reach_const(fa, start, limit=6000, env0=None, after_stmt=None, avoid=()):
+    """Blocks reachable from `start` when the values of bool locals that were assigned constants
+    on the way (`ok = false`, `x = !ok`, copies) are taken into account at later switches on
+    those locals (path-sensitive for flags such as `let fits = a == b && c == d; if !fits {..}`)."""
+    seen = set()
+    out = set()
+    work = [(start, tuple(sorted((env0 or {}).items())))]
+    first = True
+    while work:
+        b, env = work.pop()
+        key = (b, env)
+        if key in seen or len(seen) > limit or b in avoid:
+            continue
+        seen.add(key)
+        out.add(b)
+        envd = dict(env)
+        stmts = fa.blocks[b]["stmts"]
+        if first and after_stmt is not None:
+            stmts = stmts[after_stmt + 1:]     # start in the middle of the first block
+        first = False
+        for s in stmts:
+            if "lhs" not in s or s["lhs"]["p"]:
+                continue
+            l = s["lhs"]["l"]
+            rv = s["rv"]
+            v = None
+            if rv["k"] == "use":
+                k = op_const(rv["op"])
+                if k is not None and k.get("ty") == "bool" and "int" in k:
+                    v = k["int"]
+                else:
+                    pl = op_place(rv["op"])
+                    if pl is not None and not pl["p"] and pl["l"] in envd:
+                        v = envd[pl["l"]]
+            elif rv["k"] == "unop" and rv.get("op") == "Not":
+                k = op_const(rv["a"])
+                if k is not None and "int" in k:
+                    v = 1 - k["int"]
+                else:
+                    pl = op_place(rv["a"])
+                    if pl is not None and not pl["p"] and pl["l"] in envd:
+                        v = 1 - envd[pl["l"]]
+            if v is None:
+                envd.pop(l, None)
+            else:
+                envd[l] = v
+        t = fa.blocks[b]["term"]
+        nenv = tuple(sorted(envd.items()))
+        if t["k"] == "switch":
+            pl = op_place(t["op"])
+            if pl is not None and not pl["p"] and pl["l"] in envd:
+                val = envd[pl["l"]]
+                tg = t["otherwise"]
+                for vv, x in zip(t["vals"], t["targets"]):
+                    if vv == val:
+                        tg = x
+                work.append((tg, nenv))
+                continue
+        if t["k"] == "call" and not t["dest"]["p"]:
+            envd.pop(t["dest"]["l"], None)
+            nenv = tuple(sorted(envd.items()))
+        for x in fa.succs(b):
+            work.append((x, nenv))
+    return out
